@@ -18,7 +18,7 @@ EXPLANATION = (
     "error into a success are the tabled EOF conversions (C14.R1b)."
     " R1 also covers the eager BCF reader (genuine defect F25, repaired; the site had been mis-triaged as safe in the error-to-success table); (R6) the bgzf read_nonempty_block_with returns a nonzero length only for a block read by that call, so the direct-read path cannot report bytes it did not produce at the end of a stream without EOF block (genuine defect F26, repaired)."
     " (R7) a truncated text stream ends the scan: every loop around fill_buf has an exit edge controlled by the emptiness of the window."
-    " (R8) a read error inside an iterator chain reaches the caller: no Result is consumed as an iterator (flat_map over a Result, Result::into_iter), which would turn a cut-off list into a shorter list and Ok. (R9) the read_exact contract: every success exit of a hand-written read_exact (BGZF reader, multithreaded reader, default_read_exact) passes a whole-buffer test on the destination or a read_exact delegation. (R10) a block that failed to parse is emptied and the position advanced before the error is returned (genuine defect F63, repaired).")
+    " (R8) a read error inside an iterator chain reaches the caller: no Result is consumed as an iterator (flat_map over a Result, Result::into_iter), which would turn a cut-off list into a shorter list and Ok. (R9) the read_exact contract: every success exit of a hand-written read_exact (BGZF reader, multithreaded reader, default_read_exact) passes a whole-buffer test on the destination or a read_exact delegation. (R10) a block that failed to parse is emptied and the position advanced before the error is returned (genuine defect F63, repaired). (R11) no chunks(n) feeding a fixed-width decode in the index readers.")
 ASSUMPTIONS = ["read_exact reports UnexpectedEof on a short source (std/tokio contract)",
                "the 'never panics' clause is C15's inventory restricted to these readers"]
 NOT_DECIDED = ["that the records yielded before the error equal the originally written prefix (needs values)",
@@ -252,3 +252,24 @@ def run(ctx):
                                   "emptying the block" if open1 else "advancing its position over the frame"), f10.loc(b10))
         if not done:
             ctx.violation("C13.R10", "C13.R10/ANCHOR-MISSING/read_nonempty_block_with/parser-call", "no call of the block parser closure found", f10.loc())
+
+    ctx.rule("C13.R11", "index readers decode fixed-size entries from whole entries only: no `chunks(n)` (whose last chunk may be short) feeding a "
+                        "fixed-width decode in the index readers — a file cut inside an entry must be an error, not a panic in split_at / "
+                        "try_into().unwrap(); `chunks_exact` (remainder checked or ignored) is the positive control of the scanner")
+    n11, ex11 = 0, 0
+    for k11, f11 in sorted(fb.fns.items()):
+        if not f11.blocks or not k11.startswith(("noodles_", "<noodles_")):
+            continue
+        for b11, c11 in f11.calls():
+            fk11 = c11.get("f") or ""
+            if re.search(r"slice::<impl \[T\]>::(chunks_exact|as_chunks)$", fk11):
+                ex11 += 1
+            if re.search(r"slice::<impl \[T\]>::chunks$", fk11) and INDEX_READERS.search(f11.root):
+                n11 += 1
+                ctx.saw_fn(f11)
+                ctx.violation("C13.R11", "C13.R11/short-last-chunk/" + f11.root,
+                              "%s splits the bytes it read with chunks(n): when the file ends inside an entry the last chunk is short and the "
+                              "fixed-width decode that follows panics instead of reporting the truncation" % f11.root, f11.loc(b11))
+    if not n11:
+        ctx.ok("C13.R11", "no chunks(n) in the index readers", "%d chunks_exact / as_chunks site(s) seen in the workspace" % ex11)
+    ctx.floor("C13.R11", "chunks_exact / as_chunks sites seen (positive control)", ex11, 3)
